@@ -4,3 +4,497 @@ From Pybtex Require Import Base.Prelude Base.PyChar Base.PyStr Model.BibtexStr M
 (* leaving errors.capture() always restores normal reporting *)
 Lemma capture_exit_none : forall e, e_captured (capture_exit e) = None.
 Proof. reflexivity. Qed.
+
+Lemma NoDup_app_one {X} (l : list X) x : NoDup l -> ~ In x l -> NoDup (l ++ [x]).
+Proof.
+  induction l as [|y r IH]; cbn [app]; intros Hnd Hin.
+  - constructor; [intros []|constructor].
+  - inversion Hnd as [|? ? Hy Hr]. constructor.
+    + intro Hi. apply in_app_or in Hi. destruct Hi as [Hi|[Hi|[]]]; [contradiction|]. subst. apply Hin. left; reflexivity.
+    + apply IH; auto. intro Hi. apply Hin. right; auto.
+Qed.
+
+(* ------------------------------------------------------------------------------------- *)
+(* memoize *)
+Section MemoProofs.
+  Context {K V S : Type}.
+  Variable keqb : K -> K -> bool.
+  Hypothesis keqb_eq : forall a b, keqb a b = true <-> a = b.
+
+  Definition memo_ok (cap : nat) (m : memo K V) : Prop :=
+    map fst (memory m) = history m /\ NoDup (history m) /\ length (history m) <= cap.
+
+  Lemma keqb_refl k : keqb k k = true.
+  Proof. apply keqb_eq; reflexivity. Qed.
+
+  Lemma keqb_neq a b : a <> b -> keqb a b = false.
+  Proof. intro H. destruct (keqb a b) eqn:E; auto. apply keqb_eq in E. contradiction. Qed.
+
+  Lemma m_lookup_none_notin k (m : list (K * V)) : m_lookup keqb k m = None <-> ~ In k (map fst m).
+  Proof.
+    induction m as [|[k' v] r IH]; cbn [m_lookup map fst In].
+    - split; auto.
+    - destruct (keqb k k') eqn:E.
+      + apply keqb_eq in E. subst. split; [discriminate | intro H; exfalso; apply H; auto].
+      + rewrite IH. split.
+        * intros H [H1|H1]; [subst; rewrite keqb_refl in E; discriminate | auto].
+        * intros H H1. apply H. auto.
+  Qed.
+
+  Lemma m_lookup_in k v (m : list (K * V)) : m_lookup keqb k m = Some v -> In (k, v) m.
+  Proof.
+    induction m as [|[k' v'] r IH]; cbn [m_lookup]; [discriminate|].
+    destruct (keqb k k') eqn:E.
+    - apply keqb_eq in E. subst. intro H. inversion H. left; reflexivity.
+    - intro H. right. auto.
+  Qed.
+
+  (* deleting the first key of a duplicate-free dict whose key list is h :: hs always succeeds
+     (no KeyError) and leaves the dict whose key list is hs *)
+  Lemma m_del_head h hs (m : list (K * V)) :
+    map fst m = h :: hs -> exists v r, m = (h, v) :: r /\ m_del keqb h m = Some r /\ map fst r = hs.
+  Proof.
+    destruct m as [|[k v] r]; cbn [map fst]; [discriminate|].
+    intro H. inversion H. subst. exists v, r. cbn [m_del]. rewrite keqb_refl. auto.
+  Qed.
+
+  Lemma m_lookup_app_notin k (m1 m2 : list (K * V)) :
+    m_lookup keqb k (m1 ++ m2) = match m_lookup keqb k m1 with Some v => Some v | None => m_lookup keqb k m2 end.
+  Proof.
+    induction m1 as [|[k' v'] r IH]; cbn [app m_lookup]; auto.
+    destruct (keqb k k'); auto.
+  Qed.
+
+  (* what eviction does under the invariant: never raises; drops the oldest key iff the cache is full *)
+  Lemma evict_ok cap m : 0 < cap -> memo_ok cap m ->
+    exists m1, evict keqb cap m = (m1, Ok tt) /\
+      map fst (memory m1) = history m1 /\ NoDup (history m1) /\ length (history m1) < cap /\
+      (forall k v, m_lookup keqb k (memory m1) = Some v -> m_lookup keqb k (memory m) = Some v) /\
+      (forall k, In k (history m1) -> In k (history m)).
+  Proof.
+    intros Hcap (Hk & Hnd & Hlen). unfold evict.
+    destruct (Nat.leb cap (length (history m))) eqn:E.
+    - apply Nat.leb_le in E.
+      destruct (history m) as [|h hs] eqn:Eh; [cbn in E; lia|].
+      destruct (m_del_head h hs (memory m) Hk) as (v & r & Em & Ed & Er).
+      rewrite Ed. eexists; split; [reflexivity|]. cbn [memory history].
+      inversion Hnd as [|? ? Hnotin Hnd']. cbn [length] in *. repeat split; auto; try lia.
+      + intros k v0 Hl. rewrite Em. cbn [m_lookup]. destruct (keqb k h) eqn:Ekh; auto.
+        apply keqb_eq in Ekh. subst k. exfalso.
+        apply m_lookup_in in Hl. apply (in_map fst) in Hl. cbn [fst] in Hl. rewrite Er in Hl. contradiction.
+      + intros k Hin. right; auto.
+    - apply Nat.leb_gt in E. exists m. repeat split; auto.
+  Qed.
+
+  Variable g : K -> res V.
+  Definition valid (m : memo K V) : Prop := forall k v, m_lookup keqb k (memory m) = Some v -> g k = Ok v.
+
+  (* the specification of one memoised call, for a function whose result depends on the key only
+     (it may read and write the state S, provided it keeps the invariant I of S) *)
+  Lemma memo_call_spec (I : S -> Prop) cap (f : K -> S -> S * res V) :
+    0 < cap ->
+    (forall k s, I s -> I (fst (f k s)) /\ snd (f k s) = g k) ->
+    forall k m s, memo_ok cap m -> valid m -> I s ->
+    let r := memo_call keqb cap f k (m, s) in
+    snd r = g k /\ memo_ok cap (fst (fst r)) /\ valid (fst (fst r)) /\ I (snd (fst r)).
+  Proof.
+    intros Hcap Hf k m s Hok Hv HI. cbv zeta. unfold memo_call.
+    destruct (m_lookup keqb k (memory m)) eqn:El.
+    - cbn [fst snd]. repeat split; auto; try apply Hok. symmetry; apply Hv; auto.
+    - destruct (evict_ok cap m Hcap Hok) as (m1 & Eev & H1 & H2 & H3 & H4 & H5). rewrite Eev.
+      destruct (Hf k s HI) as (HI' & Hg). destruct (f k s) as [s' r] eqn:Ef. cbn [fst snd] in *.
+      assert (Hv1 : valid m1) by (intros k0 v0 Hl; apply Hv; auto).
+      assert (Hok1 : memo_ok cap m1) by (repeat split; auto; lia).
+      destruct r; cbn [fst snd]; auto.
+      split; [auto|]. split; [|split; auto].
+      + unfold memo_ok. cbn [memory history]. rewrite map_app, H1. cbn [map fst]. split; [reflexivity|]. split.
+        * apply NoDup_app_one. auto. intro Hin. apply H5 in Hin.
+          apply m_lookup_none_notin in El. apply El. destruct Hok as (Hk & _). rewrite Hk. auto.
+        * rewrite app_length. cbn [length]. lia.
+      + intros k0 v0. cbn [memory]. rewrite m_lookup_app_notin.
+        destruct (m_lookup keqb k0 (memory m1)) eqn:E1.
+        * intro H; inversion H; subst. apply Hv1; auto.
+        * cbn [m_lookup]. destruct (keqb k0 k) eqn:E2; [|discriminate].
+          apply keqb_eq in E2. subst. intro H; inversion H; subst. auto.
+  Qed.
+
+  Lemma memo0_ok cap : memo_ok cap (@memo0 K V).
+  Proof. repeat split; cbn; try constructor; lia. Qed.
+  Lemma memo0_valid : valid memo0.
+  Proof. intros k v H. discriminate. Qed.
+
+  Lemma memo_run_spec (I : S -> Prop) cap (f : K -> S -> S * res V) :
+    0 < cap ->
+    (forall k s, I s -> I (fst (f k s)) /\ snd (f k s) = g k) ->
+    forall ks m s, memo_ok cap m -> valid m -> I s ->
+    let r := memo_run keqb cap f ks (m, s) in
+    snd r = map g ks /\ memo_ok cap (fst (fst r)) /\ valid (fst (fst r)) /\ I (snd (fst r)).
+  Proof.
+    intros Hcap Hf. induction ks as [|k r IH]; intros m s Hok Hv HI; cbv zeta; cbn [memo_run map].
+    - cbn [fst snd]. auto.
+    - pose proof (memo_call_spec I cap f Hcap Hf k m s Hok Hv HI) as Hc. cbv zeta in Hc.
+      destruct (memo_call keqb cap f k (m, s)) as [[m1 s1] v1]. cbn [fst snd] in Hc.
+      destruct Hc as (H1 & H2 & H3 & H4).
+      specialize (IH m1 s1 H2 H3 H4). cbv zeta in IH.
+      destruct (memo_run keqb cap f r (m1, s1)) as [[m2 s2] vs]. cbn [fst snd] in *.
+      destruct IH as (I1 & I2 & I3 & I4). subst. auto.
+  Qed.
+
+  (* for ANY wrapped function (impure, raising): the cache keeps its shape, and the wrapper adds no
+     exception of its own -- in particular `del memory[history.popleft()]` never raises *)
+  Lemma memo_call_inv cap (f : K -> S -> S * res V) k m s :
+    0 < cap -> memo_ok cap m ->
+    let r := memo_call keqb cap f k (m, s) in
+    memo_ok cap (fst (fst r)) /\
+    ((exists v, m_lookup keqb k (memory m) = Some v /\ r = ((m, s), Ok v)) \/
+     (m_lookup keqb k (memory m) = None /\ snd r = snd (f k s) /\ snd (fst r) = fst (f k s))).
+  Proof.
+    intros Hcap Hok. cbv zeta. unfold memo_call.
+    destruct (m_lookup keqb k (memory m)) eqn:El.
+    - cbn [fst snd]. split; auto. left. eauto.
+    - destruct (evict_ok cap m Hcap Hok) as (m1 & Eev & H1 & H2 & H3 & H4 & H5). rewrite Eev.
+      assert (Hok1 : memo_ok cap m1) by (repeat split; auto; lia).
+      destruct (f k s) as [s' r] eqn:Ef. cbn [fst snd].
+      destruct r; cbn [fst snd]; (split; [|right; auto]); auto.
+      unfold memo_ok. cbn [memory history]. rewrite map_app, H1. cbn [map fst]. split; [reflexivity|]. split.
+      * apply NoDup_app_one. auto. intro Hin. apply H5 in Hin.
+        apply m_lookup_none_notin in El. apply El. destruct Hok as (Hk & _). rewrite Hk. auto.
+      * rewrite app_length. cbn [length]. lia.
+  Qed.
+End MemoProofs.
+
+(* ------------------------------------------------------------------------------------- *)
+(* the heap: cell 0 (month_names) is written by no reader *)
+Lemma h_get_set_other h i c : i <> 0 -> h_get (h_set h i c) 0 = h_get h 0.
+Proof. destruct h as [|x r]; destruct i as [|j]; cbn; auto; intro H; contradiction H; reflexivity. Qed.
+
+Lemma h_get_app0 h c : 1 <= length h -> h_get (h ++ [c]) 0 = h_get h 0.
+Proof. destruct h; cbn; auto; lia. Qed.
+
+Lemma h_set_length h i c : length (h_set h i c) = length h.
+Proof. revert i; induction h as [|x r IH]; destruct i; cbn; auto. Qed.
+
+Definition wfG (g : G) : Prop :=
+  1 <= length (g_heap g) /\ Forall (fun rd => 1 <= r_cell rd) (g_readers g).
+
+Lemma lift_res_fst {A B C} (st : A) (r : res B) (k : B -> A * res C) (P : A -> Prop) :
+  P st -> (forall v, r = Ok v -> P (fst (k v))) -> P (fst (lift_res st r k)).
+Proof. intros H1 H2. destruct r; cbn [lift_res fst]; auto. Qed.
+
+Lemma process_item_cell rd it e : r_cell (fst (fst (process_item rd it e))) = r_cell rd.
+Proof.
+  destruct it as [n p|p|t k f]; cbn [process_item fst]; auto.
+  destruct (process_fields k f [] (mkEntry (lower t) [] []) e) as [e1 ren].
+  apply (lift_res_fst (rd, e1) ren _ (fun x => r_cell (fst x) = r_cell rd)); auto.
+  intros en _. destruct (has_key_ci k (r_entries rd)); auto.
+  destruct (report_error (E_REPEATED, k) e1) as [e2 u].
+  apply (lift_res_fst (rd, e2) u _ (fun x => r_cell (fst x) = r_cell rd)); auto.
+Qed.
+
+Lemma feed_cell_rd file : forall cell rd e, r_cell (snd (fst (fst (feed cell rd file e)))) = r_cell rd.
+Proof.
+  induction file as [|c r IH]; intros cell rd e; cbn [feed fst snd]; auto.
+  destruct (ll_command true cell c e) as [[cell1 e1] ri].
+  apply (lift_res_fst (cell1, rd, e1) ri _ (fun x => r_cell (snd (fst x)) = r_cell rd)); auto.
+  intros oi _. destruct oi as [it|]; [|apply IH].
+  pose proof (process_item_cell rd it e1) as Hp.
+  destruct (process_item rd it e1) as [[rd1 e2] u]. cbn [fst] in Hp.
+  apply (lift_res_fst (cell1, rd1, e2) u _ (fun x => r_cell (snd (fst x)) = r_cell rd)); auto.
+  intros _ _. rewrite IH. auto.
+Qed.
+
+Lemma Forall_set_nth {X} (P : X -> Prop) l i x : Forall P l -> P x -> Forall P (set_nth l i x).
+Proof.
+  revert i; induction l as [|y r IH]; intros i Hl Hx; destruct i; cbn [set_nth]; auto;
+    inversion Hl; subst; constructor; auto.
+Qed.
+
+(* direct use of LowLevelParser without a macros argument: the one call that writes month_names *)
+Definition safe_op (o : op) : Prop := match o with OLowLevel None _ => False | _ => True end.
+
+Lemma exec_cell0 cap fmt g o : wfG g -> safe_op o ->
+  let g1 := fst (exec cap fmt g o) in wfG g1 /\ h_get (g_heap g1) 0 = h_get (g_heap g) 0.
+Proof.
+  intros [Hlen Hrd] Hsafe. cbv zeta. destruct o as [m|r file|m files|src file|names n format|calls|b]; cbn [exec].
+  - (* ONewReader *)
+    unfold new_reader. unfold wfG; cbn [fst g_heap g_readers]. split; [split|].
+    + rewrite app_length. lia.
+    + apply Forall_app. split; auto.
+    + apply h_get_app0; auto.
+  - (* OFeed *)
+    destruct (nth_error (g_readers g) r) as [rd|] eqn:En; [|cbn [fst]; split; [split|]; auto].
+    assert (Hc : 1 <= r_cell rd) by (eapply Forall_forall in Hrd; [apply Hrd | eapply nth_error_In; eauto]).
+    pose proof (feed_cell_rd file (h_get (g_heap g) (r_cell rd)) rd (g_err g)) as Hf.
+    destruct (feed (h_get (g_heap g) (r_cell rd)) rd file (g_err g)) as [[[c1 rd1] e1] u].
+    unfold wfG; cbn [fst snd g_heap g_readers] in *. split; [split|].
+    + rewrite h_set_length; auto.
+    + apply Forall_set_nth; auto. lia.
+    + apply h_get_set_other. lia.
+  - (* OParse *)
+    destruct (feed_files (new_macros (g_heap g) m) (mkReader 0 [] []) files (g_err g)) as [[[c2 rd2] e2] u].
+    unfold wfG; cbn [fst g_heap g_readers]. split; [split|]; auto.
+  - (* OLowLevel *)
+    destruct src as [r|]; [|contradiction].
+    destruct (nth_error (g_readers g) r) as [rd|] eqn:En; [|cbn [fst]; split; [split|]; auto].
+    assert (Hc : 1 <= r_cell rd) by (eapply Forall_forall in Hrd; [apply Hrd | eapply nth_error_In; eauto]).
+    destruct (lowlevel false (h_get (g_heap g) (r_cell rd)) file (g_err g)) as [[cell1 e1] rr].
+    unfold wfG; cbn [fst g_heap g_readers]. split; [split|]; auto.
+    + rewrite h_set_length; auto.
+    + apply h_get_set_other. lia.
+  - destruct (memo_call nkey_eqb cap (format_name_f cap fmt) (names, n, format) (g_mf g, (g_ms g, g_err g))) as [[mf1 [ms1 e1]] v].
+    unfold wfG; cbn [fst g_heap g_readers]. split; [split|]; auto.
+  - destruct (bst_calls cap fmt calls (g_mf g, (g_ms g, g_err g))) as [[mf1 [ms1 e1]] v].
+    unfold wfG; cbn [fst g_heap g_readers]. split; [split|]; auto.
+  - unfold wfG; cbn [fst g_heap g_readers]. split; [split|]; auto.
+Qed.
+
+Lemma step_cell0 cap fmt g co : wfG g -> safe_op (snd co) ->
+  let g1 := fst (step cap fmt g co) in wfG g1 /\ h_get (g_heap g1) 0 = h_get (g_heap g) 0.
+Proof.
+  intros Hwf Hs. destruct co as [cpt o]. cbn [snd] in Hs. cbv zeta. unfold step.
+  destruct cpt.
+  - pose proof (exec_cell0 cap fmt (with_err (with_err g (clear_stderr (g_err g))) (capture_enter (g_err (with_err g (clear_stderr (g_err g)))))) o Hwf Hs) as H.
+    cbv zeta in H. destruct (exec cap fmt _ o) as [g1 v]. cbn [fst] in *. exact H.
+  - pose proof (exec_cell0 cap fmt (with_err g (clear_stderr (g_err g))) o Hwf Hs) as H.
+    cbv zeta in H. destruct (exec cap fmt _ o) as [g1 v]. cbn [fst] in *. exact H.
+Qed.
+
+Lemma run_cell0 cap fmt cos : forall g, wfG g -> Forall (fun co => safe_op (snd co)) cos ->
+  wfG (final cap fmt g cos) /\ h_get (g_heap (final cap fmt g cos)) 0 = h_get (g_heap g) 0.
+Proof.
+  unfold final. induction cos as [|co r IH]; intros g Hwf Hs; cbn [run fst]; auto.
+  inversion Hs as [|? ? H1 H2]; subst.
+  pose proof (step_cell0 cap fmt g co Hwf H1) as Hst. cbv zeta in Hst.
+  destruct (step cap fmt g co) as [g1 out]. cbn [fst] in Hst. destruct Hst as [Hw1 Hc1].
+  specialize (IH g1 Hw1 H2). destruct (run cap fmt g1 r) as [g2 outs]. cbn [fst] in *.
+  destruct IH as [Hw2 Hc2]. split; auto. congruence.
+Qed.
+
+Lemma wfG0 : wfG G0.
+Proof. split; cbn; auto. Qed.
+
+Lemma month_names_invariant_lemma cap fmt cos : Forall (fun co => safe_op (snd co)) cos ->
+  h_get (g_heap (final cap fmt G0 cos)) 0 = mkCell false month_names.
+Proof. intro H. destruct (run_cell0 cap fmt cos G0 wfG0 H) as [_ Hc]. rewrite Hc. reflexivity. Qed.
+
+(* ------------------------------------------------------------------------------------- *)
+(* a fresh reader's result depends on the process state only through month_names and the
+   reporting cells: not on other readers, their macro tables, or the name caches *)
+Lemma parse_isolated_lemma cap fmt g g' c macros files :
+  h_get (g_heap g) 0 = h_get (g_heap g') 0 -> g_err g = g_err g' ->
+  snd (step cap fmt g (c, OParse macros files)) = snd (step cap fmt g' (c, OParse macros files)).
+Proof.
+  intros Hh He. unfold step, exec, new_macros. destruct c; cbn [with_err g_err g_heap g_readers g_ms g_mf];
+    rewrite Hh, He;
+    destruct (feed_files _ _ files _) as [[[c2 rd2] e2] u]; reflexivity.
+Qed.
+
+Lemma parse_explicit_macros_lemma cap fmt g g' c l files :
+  g_err g = g_err g' ->
+  snd (step cap fmt g (c, OParse (Some l) files)) = snd (step cap fmt g' (c, OParse (Some l) files)).
+Proof.
+  intros He. unfold step, exec, new_macros. destruct c; cbn [with_err g_err g_heap g_readers g_ms g_mf];
+    rewrite He; destruct (feed_files _ _ files _) as [[[c2 rd2] e2] u]; reflexivity.
+Qed.
+
+Lemma parse_history_independent_lemma cap fmt cos c macros files :
+  Forall (fun co => safe_op (snd co)) cos ->
+  let g := final cap fmt G0 cos in
+  snd (step cap fmt g (c, OParse macros files)) = snd (step cap fmt (with_err G0 (g_err g)) (c, OParse macros files)).
+Proof.
+  intros Hs. cbv zeta. apply parse_isolated_lemma; [|reflexivity].
+  destruct (run_cell0 cap fmt cos G0 wfG0 Hs) as [_ Hc]. rewrite Hc. reflexivity.
+Qed.
+
+(* files of one reader accumulate: parsing fs1 ++ fs2 is parsing fs2 in the state fs1 left *)
+Lemma feed_files_app fs1 : forall fs2 cell rd e,
+  feed_files cell rd (fs1 ++ fs2) e =
+  let '((c1, rd1, e1), u) := feed_files cell rd fs1 e in
+  match u with Ok _ => feed_files c1 rd1 fs2 e1 | PyErr c l => ((c1, rd1, e1), PyErr c l) | Crash => ((c1, rd1, e1), Crash) | OutOfFuel => ((c1, rd1, e1), OutOfFuel) end.
+Proof.
+  induction fs1 as [|f r IH]; intros fs2 cell rd e; cbn [app feed_files].
+  - destruct (feed_files cell rd fs2 e) as [[[? ?] ?] ?]; reflexivity.
+  - destruct (feed cell rd f e) as [[[c1 rd1] e1] u]. destruct u as [[]| | |]; cbn [lift_res]; auto.
+Qed.
+
+(* ------------------------------------------------------------------------------------- *)
+(* the memoised format.name$ path *)
+Lemma str_eqb_eq a b : str_eqb a b = true <-> a = b.
+Proof. destruct (str_eqb_spec a b); split; auto; discriminate. Qed.
+
+Lemma nkey_eqb_eq a b : nkey_eqb a b = true <-> a = b.
+Proof.
+  destruct a as [[a1 a2] a3], b as [[b1 b2] b3]. unfold nkey_eqb.
+  rewrite !andb_true_iff, !str_eqb_eq, Z.eqb_eq. split.
+  - intros [[? ?] ?]; subst; reflexivity.
+  - intro H; inversion H; auto.
+Qed.
+
+(* what _format_name computes when nothing is cached *)
+Definition pure_fmt (fmt : fmt_fun) (k : nkey) : res str :=
+  let '(names, n, format) := k in
+  match split_name_list names with
+  | Ok split => if (Z.leb 1 n && Z.leb n (Z.of_nat (length split)))%bool
+                then snd (fmt (nth (Z.to_nat (n - 1)) split []) format) else PyErr E_BIBTEXERR (-1)%Z
+  | PyErr c l => PyErr c l
+  | Crash => Crash
+  | OutOfFuel => OutOfFuel
+  end.
+
+(* a name formatter that reports nothing through report_error *)
+Definition quiet (fmt : fmt_fun) : Prop := forall n f, fst (fmt n f) = [].
+
+Definition split_inv (cap : nat) (e0 : errs) (s : memo str (list str) * errs) : Prop :=
+  memo_ok cap (fst s) /\ valid str_eqb split_name_list (fst s) /\ snd s = e0.
+
+Lemma format_name_f_spec cap fmt e0 : 0 < cap -> quiet fmt ->
+  forall k s, split_inv cap e0 s ->
+    split_inv cap e0 (fst (format_name_f cap fmt k s)) /\ snd (format_name_f cap fmt k s) = pure_fmt fmt k.
+Proof.
+  intros Hcap Hq [[names n] format] [ms e] (Hok & Hv & He). cbn [fst snd] in *. subst e.
+  unfold format_name_f, pure_fmt.
+  pose proof (memo_call_spec str_eqb str_eqb_eq split_name_list (fun e => e = e0) cap split_names_f Hcap) as Hs.
+  specialize (Hs (fun k s H => conj H eq_refl) names ms e0 Hok Hv eq_refl). cbv zeta in Hs.
+  destruct (memo_call str_eqb cap split_names_f names (ms, e0)) as [[ms1 e1] r]. cbn [fst snd] in Hs.
+  destruct Hs as (Hr & Hok1 & Hv1 & He1). subst e1 r.
+  destruct (split_name_list names) as [split| | |]; cbn [lift_res fst snd]; try (unfold split_inv; cbn [fst snd]; repeat split; auto; try apply Hok1; fail).
+  destruct (Z.leb 1 n && Z.leb n (Z.of_nat (length split)))%bool; [|unfold split_inv; cbn [fst snd]; repeat split; auto; try apply Hok1].
+  pose proof (Hq (nth (Z.to_nat (n - 1)) split []) format) as Hq1.
+  destruct (fmt (nth (Z.to_nat (n - 1)) split []) format) as [reps v]. cbn [fst snd] in *. subst reps.
+  cbn [report_all lift_res fst snd]. unfold split_inv; cbn [fst snd]; repeat split; auto; try apply Hok1.
+Qed.
+
+Ltac msplit := unfold split_inv; cbn [fst snd g_ms g_mf]; repeat match goal with |- _ /\ _ => split end; auto.
+
+Definition memos_ok (cap : nat) (fmt : fmt_fun) (g : G) : Prop :=
+  memo_ok cap (g_ms g) /\ valid str_eqb split_name_list (g_ms g) /\
+  memo_ok cap (g_mf g) /\ valid nkey_eqb (pure_fmt fmt) (g_mf g).
+
+Lemma format_call_spec cap fmt k mf ms e : 0 < cap -> quiet fmt ->
+  memo_ok cap ms -> valid str_eqb split_name_list ms -> memo_ok cap mf -> valid nkey_eqb (pure_fmt fmt) mf ->
+  let r := memo_call nkey_eqb cap (format_name_f cap fmt) k (mf, (ms, e)) in
+  snd r = pure_fmt fmt k /\ memo_ok cap (fst (fst r)) /\ valid nkey_eqb (pure_fmt fmt) (fst (fst r)) /\
+  split_inv cap e (snd (fst r)).
+Proof.
+  intros Hcap Hq H1 H2 H3 H4.
+  apply (memo_call_spec nkey_eqb nkey_eqb_eq (pure_fmt fmt) (split_inv cap e) cap (format_name_f cap fmt) Hcap); auto.
+  - intros k0 s Hs. apply format_name_f_spec; auto.
+  - unfold split_inv; cbn [fst snd]; auto.
+Qed.
+
+Lemma bst_calls_spec cap fmt : 0 < cap -> quiet fmt -> forall ks mf ms e,
+  memo_ok cap ms -> valid str_eqb split_name_list ms -> memo_ok cap mf -> valid nkey_eqb (pure_fmt fmt) mf ->
+  let r := bst_calls cap fmt ks (mf, (ms, e)) in
+  memo_ok cap (fst (fst r)) /\ valid nkey_eqb (pure_fmt fmt) (fst (fst r)) /\ split_inv cap e (snd (fst r)).
+Proof.
+  intros Hcap Hq. induction ks as [|k r IH]; intros mf ms e H1 H2 H3 H4; cbv zeta; cbn [bst_calls fst snd].
+  - msplit.
+  - pose proof (format_call_spec cap fmt k mf ms e Hcap Hq H1 H2 H3 H4) as Hc. cbv zeta in Hc.
+    destruct (memo_call nkey_eqb cap (format_name_f cap fmt) k (mf, (ms, e))) as [[mf1 [ms1 e1]] v].
+    cbn [fst snd] in Hc. destruct Hc as (_ & Hc1 & Hc2 & (Hc3 & Hc4 & Hc5)). cbn [fst snd] in *. subst e1.
+    destruct v as [s| | |]; cbn [lift_res fst snd]; try (msplit; fail).
+    specialize (IH mf1 ms1 e Hc3 Hc4 Hc1 Hc2). cbv zeta in IH.
+    destruct (bst_calls cap fmt r (mf1, (ms1, e))) as [[mf2 [ms2 e2]] rr]. cbn [fst snd] in *.
+    destruct rr; cbn [lift_res fst snd]; auto.
+Qed.
+
+Lemma exec_memos_ok cap fmt g o : 0 < cap -> quiet fmt -> memos_ok cap fmt g -> memos_ok cap fmt (fst (exec cap fmt g o)).
+Proof.
+  intros Hcap Hq (H1 & H2 & H3 & H4). unfold memos_ok.
+  destruct o as [m|r file|m files|src file|names n format|calls|b]; cbn [exec].
+  - unfold new_reader. cbn [fst]. msplit.
+  - destruct (nth_error (g_readers g) r) as [rd|]; [|msplit].
+    destruct (feed _ rd file (g_err g)) as [[[c1 rd1] e1] u]. msplit.
+  - destruct (feed_files _ _ files (g_err g)) as [[[c2 rd2] e2] u]. msplit.
+  - destruct (match src with None => Some 0 | Some r => _ end) as [i|]; [|msplit].
+    destruct (lowlevel false _ file (g_err g)) as [[cell1 e1] rr]. msplit.
+  - pose proof (format_call_spec cap fmt (names, n, format) (g_mf g) (g_ms g) (g_err g) Hcap Hq H1 H2 H3 H4) as Hc.
+    cbv zeta in Hc. destruct (memo_call nkey_eqb cap (format_name_f cap fmt) (names, n, format) _) as [[mf1 [ms1 e1]] v].
+    cbn [fst snd] in *. destruct Hc as (_ & Hc1 & Hc2 & (Hc3 & Hc4 & _)). msplit.
+  - pose proof (bst_calls_spec cap fmt Hcap Hq calls (g_mf g) (g_ms g) (g_err g) H1 H2 H3 H4) as Hc.
+    cbv zeta in Hc. destruct (bst_calls cap fmt calls _) as [[mf1 [ms1 e1]] v].
+    cbn [fst snd] in *. destruct Hc as (Hc1 & Hc2 & (Hc3 & Hc4 & _)). msplit.
+  - msplit.
+Qed.
+
+Lemma step_memos_ok cap fmt g co : 0 < cap -> quiet fmt -> memos_ok cap fmt g -> memos_ok cap fmt (fst (step cap fmt g co)).
+Proof.
+  intros Hcap Hq Hm. destruct co as [cpt o]. unfold step. destruct cpt.
+  - pose proof (exec_memos_ok cap fmt (with_err (with_err g (clear_stderr (g_err g))) (capture_enter (g_err (with_err g (clear_stderr (g_err g)))))) o Hcap Hq Hm) as H.
+    destruct (exec cap fmt _ o) as [g1 v]. cbn [fst] in *. exact H.
+  - pose proof (exec_memos_ok cap fmt (with_err g (clear_stderr (g_err g))) o Hcap Hq Hm) as H.
+    destruct (exec cap fmt _ o) as [g1 v]. cbn [fst] in *. exact H.
+Qed.
+
+Lemma run_memos_ok cap fmt cos : 0 < cap -> quiet fmt -> forall g, memos_ok cap fmt g -> memos_ok cap fmt (final cap fmt g cos).
+Proof.
+  intros Hcap Hq. unfold final. induction cos as [|co r IH]; intros g Hm; cbn [run fst]; auto.
+  pose proof (step_memos_ok cap fmt g co Hcap Hq Hm) as Hs.
+  destruct (step cap fmt g co) as [g1 out]. cbn [fst] in Hs. specialize (IH g1 Hs).
+  destruct (run cap fmt g1 r) as [g2 outs]. exact IH.
+Qed.
+
+Lemma memos_ok_G0 cap fmt e : memos_ok cap fmt (with_err G0 e).
+Proof. repeat split; cbn; try constructor; try lia; intros k v H; discriminate. Qed.
+
+(* the complete outcome of a format.name$ call in any state whose caches are well formed *)
+Lemma step_format_name_out cap fmt g c names n format : 0 < cap -> quiet fmt -> memos_ok cap fmt g ->
+  snd (step cap fmt g (c, OFormatName names n format)) =
+  let e := clear_stderr (g_err g) in
+  mkOut (map_res_val VStr (pure_fmt fmt (names, n, format))) [] (if c then Some [] else None).
+Proof.
+  intros Hcap Hq (H1 & H2 & H3 & H4). unfold step. destruct c; cbn [exec with_err g_mf g_ms g_err g_heap g_readers].
+  - pose proof (format_call_spec cap fmt (names, n, format) (g_mf g) (g_ms g) (capture_enter (clear_stderr (g_err g))) Hcap Hq H1 H2 H3 H4) as Hc.
+    cbv zeta in Hc. destruct (memo_call nkey_eqb cap (format_name_f cap fmt) (names, n, format) _) as [[mf1 [ms1 e1]] v].
+    cbn [fst snd] in *. destruct Hc as (Hv & _ & _ & (_ & _ & He)). cbn [snd] in He. subst. reflexivity.
+  - pose proof (format_call_spec cap fmt (names, n, format) (g_mf g) (g_ms g) (clear_stderr (g_err g)) Hcap Hq H1 H2 H3 H4) as Hc.
+    cbv zeta in Hc. destruct (memo_call nkey_eqb cap (format_name_f cap fmt) (names, n, format) _) as [[mf1 [ms1 e1]] v].
+    cbn [fst snd] in *. destruct Hc as (Hv & _ & _ & (_ & _ & He)). cbn [snd] in He. subst. reflexivity.
+Qed.
+
+Lemma format_name_history_independent_lemma cap fmt cos c names n format : 0 < cap -> quiet fmt ->
+  snd (step cap fmt (final cap fmt G0 cos) (c, OFormatName names n format)) =
+  snd (step cap fmt G0 (c, OFormatName names n format)).
+Proof.
+  intros Hcap Hq. rewrite !step_format_name_out; auto.
+  - apply (memos_ok_G0 cap fmt errs0).
+  - apply run_memos_ok; auto. apply (memos_ok_G0 cap fmt errs0).
+Qed.
+
+(* ------------------------------------------------------------------------------------- *)
+(* packaged statements and refutation witnesses *)
+Lemma memo_transparent_lemma {K V S} (keqb : K -> K -> bool) (Hk : forall a b, keqb a b = true <-> a = b)
+  (g : K -> res V) cap (f : K -> S -> S * res V) ks s0 :
+  0 < cap -> (forall k s, snd (f k s) = g k) ->
+  snd (memo_run keqb cap f ks (memo0, s0)) = map g ks /\
+  memo_ok cap (fst (fst (memo_run keqb cap f ks (memo0, s0)))).
+Proof.
+  intros Hcap Hf.
+  pose proof (memo_run_spec keqb Hk g (fun _ => True) cap f Hcap (fun k s _ => conj I (Hf k s)) ks memo0 s0
+                (memo0_ok cap) (memo0_valid keqb g) I) as H.
+  cbv zeta in H. tauto.
+Qed.
+
+Definition x_jan : str := Eval vm_compute in s2l "jan".
+Definition leak_history : list (bool * op) := [(false, OLowLevel None [CString x_jan [VLit [88%N]]])].
+Definition no_fmt : fmt_fun := fun _ _ => ([], Ok []).
+
+Lemma month_names_refuted_lemma :
+  exists cap fmt cos, h_get (g_heap (final cap fmt G0 cos)) 0 <> mkCell false month_names.
+Proof. exists 1024, no_fmt, leak_history. vm_compute. discriminate. Qed.
+
+(* a formatter that reports 'Too many commas' for every name (as Person(name) does for 'a, b, c, d') *)
+Definition noisy_fmt : fmt_fun := fun n _ => ([(E_NAME, n)], Ok n).
+Definition probe_name : op := OFormatName [97%N] 1%Z [].
+
+(* F19: inside errors.capture() the repeated call reports nothing *)
+Lemma reports_refuted_lemma :
+  exists cap fmt cos c o, 0 < cap /\
+    o_captured (snd (step cap fmt (final cap fmt G0 cos) (c, o))) <> o_captured (snd (step cap fmt G0 (c, o))).
+Proof. exists 1024, noisy_fmt, [(true, probe_name)], true, probe_name. split; [lia|]. vm_compute. discriminate. Qed.
+
+(* F19, strict mode: the call that raises in a fresh process returns normally after a captured run *)
+Lemma value_refuted_lemma :
+  exists cap fmt cos c o, 0 < cap /\
+    o_val (snd (step cap fmt (final cap fmt G0 cos) (c, o))) <> o_val (snd (step cap fmt G0 (c, o))).
+Proof. exists 1024, noisy_fmt, [(true, probe_name)], false, probe_name. split; [lia|]. vm_compute. discriminate. Qed.
